@@ -26,14 +26,24 @@ func NewVarPool() *VarPool {
 }
 
 func (p *VarPool) GetName(baseName string) string {
-	count := p.vars[baseName]
-	p.vars[baseName] = count + 1
+	for {
+		count := p.vars[baseName]
+		p.vars[baseName] = count + 1
 
-	if count == 0 {
-		return baseName
+		if count == 0 {
+			return baseName
+		}
+
+		// A suffixed name is only fresh if it is not itself in use, either as the base of
+		// another request (a type named Foo0 next to two values of type Foo) or because it
+		// was handed out before. Handing it out reserves it for later requests.
+		name := fmt.Sprintf("%s%d", baseName, count-1)
+		if p.vars[name] == 0 {
+			p.vars[name] = 1
+
+			return name
+		}
 	}
-
-	return fmt.Sprintf("%s%d", baseName, count-1)
 }
 
 func (p *VarPool) Get(t types.Type) string {
@@ -43,19 +53,7 @@ func (p *VarPool) Get(t types.Type) string {
 }
 
 func (p *VarPool) GetChannel(t types.Type) string {
-	name := p.getBaseName(t) + "Ch"
-
-	count, ok := p.vars[name]
-	if !ok {
-		count = 0
-	}
-	p.vars[name] = count + 1
-
-	if count == 0 {
-		return name
-	}
-
-	return fmt.Sprintf("%s%d", name, count-1)
+	return p.GetName(p.getBaseName(t) + "Ch")
 }
 
 // getTypeBaseName extracts a base name from a type for argument naming
